@@ -44,7 +44,7 @@ Bytes(b) == LET sum[i \in 0..Len(b)] == IF i = 0 THEN 0 ELSE sum[i - 1] + sz[b[i
 
 \* the bound clauses of the statement
 BoundOK(b) ==
-  CASE conf.kind = "bulk"  -> Len(b) <= conf.max
+  CASE conf.kind \in {"bulk", "inserter"} -> Len(b) <= conf.max      \* inserter: rows per INSERT statement
     [] conf.kind = "chunk" -> b = <<>> \/ Bytes(b) - sz[b[Len(b)]] < conf.max
     [] OTHER               -> TRUE
 
